@@ -394,3 +394,51 @@ VARIANTS += [
     silent('print-twin-attrgetter', ['C01'], [(PRN, "    for token in model.tokens:\n        file.write(token.raw_text)", "    for raw_text in map(operator.attrgetter('raw_text'), model.tokens):\n        file.write(raw_text)"),
                                               (PRN, "import io\n", "import io\nimport operator\n")]),
 ]
+
+# ---------------------------------------------------------------------- round 6
+_EDW = "            with p.open('w', newline='') as f:\n                f.write(updated_text)"
+VARIANTS += [
+    fire('r6-editor-tmp-sibling', ['C16'], [(ED, _EDW, "            tmp = p.with_name(p.name + '.tmp')\n            with tmp.open('w', newline='') as f:\n                f.write(updated_text)\n            tmp.replace(p)")], 'ED-TARGET'),
+    fire('r6-editor-backup-copy', ['C16'], [(ED, _EDW, "            os.replace(p, str(p) + '~')\n" + _EDW)], 'ED-TARGET'),
+    fire('r6-editor-unlink-join', ['C16'], [(ED, "            os.unlink(current_path)", "            os.unlink(os.path.join(os.path.dirname(path), os.path.basename(current_path)))")], 'ED-TARGET'),
+    silent('r6-twin-editor-tempfile', ['C16'], [(ED, _EDW, "            fd, tmp = tempfile.mkstemp(dir=p.parent)\n            with open(fd, 'w', newline='') as f:\n                f.write(updated_text)\n            os.replace(tmp, p)"),
+                                                (ED, "import pathlib\n", "import pathlib\nimport tempfile\n")]),
+    silent('r6-twin-editor-fspath', ['C16'], [(ED, _EDW, "            with open(os.fspath(p), 'w', newline='') as f:\n                f.write(updated_text)")]),
+    silent('r6-twin-editor-key-list', ['C16'], [(ED, "        for current_path, file in files.items():\n", "        for current_path in list(files):\n            file = files[current_path]\n")]),
+    fire('r6-editor-skip-empty', ['C16'], [(ED, "            files[current_path] = self._parser.parse(texts[current_path], models.File)\n",
+                                            "            if not texts[current_path]:\n                continue\n            files[current_path] = self._parser.parse(texts[current_path], models.File)\n")], 'ED-PAIR'),
+    fire('r6-editor-parse-guarded', ['C16'], [(ED, "            files[current_path] = self._parser.parse(texts[current_path], models.File)\n            queue.extend(_get_include_paths(current_path, files[current_path]))\n",
+                                               "            if 'include' in texts[current_path]:\n                files[current_path] = self._parser.parse(texts[current_path], models.File)\n                queue.extend(_get_include_paths(current_path, files[current_path]))\n")], 'ED-PAIR'),
+    silent('r6-twin-editor-local-model', ['C16'], [(ED, "            files[current_path] = self._parser.parse(texts[current_path], models.File)\n            queue.extend(_get_include_paths(current_path, files[current_path]))\n",
+                                                    "            parsed = self._parser.parse(texts[current_path], models.File)\n            queue.extend(_get_include_paths(current_path, parsed))\n            files[current_path] = parsed\n")]),
+]
+
+VARIANTS += [
+    fire('r6-meta-pop-none-default', ['C10'], [(MI, "    def pop(self, index: int | str = -1, default: _V | _Empty = _EMPTY) -> MetaItem | _V:", "    def pop(self, index: int | str = -1, default: Optional[_V] = None) -> MetaItem | _V:"),
+                                               (MI, "        if not isinstance(default, _Empty):\n            return default", "        if default is not None:\n            return default")], 'MAP-FIRST'),
+    fire('r6-meta-pop-falsy-default', ['C10'], [(MI, "        if not isinstance(default, _Empty):\n            return default", "        if not isinstance(default, _Empty) and default:\n            return default")], 'MAP-FIRST'),
+    silent('r6-twin-meta-pop-object-sentinel', ['C10'], [(MI, "class _Empty:\n    pass\n\n\n_EMPTY = _Empty()\n", "_MISSING: Any = object()\n"), (MI, "from typing import Callable,", "from typing import Any, Callable,"),
+                                                         (MI, "default: _V | _Empty = _EMPTY) -> MetaItem | _V:", "default: Any = _MISSING) -> MetaItem | _V:"),
+                                                         (MI, "default: _V | _Empty = _EMPTY) -> MetaItem | Optional[MetaValue] | _V:", "default: Any = _MISSING) -> MetaItem | Optional[MetaValue] | _V:"),
+                                                         (MI, "        if not isinstance(default, _Empty):\n            return default", "        if default is not _MISSING:\n            return default"),
+                                                         (MI, "        if not isinstance(default, _Empty):\n            return default", "        if default is not _MISSING:\n            return default")]),
+]
+
+VARIANTS += [
+    fire('r6-deepcopy-memo-threaded', ['C11'], [(BA, "        del memo  # unused\n", ""), (BA, "            new_token = copy.deepcopy(token)\n", "            new_token = copy.deepcopy(token, memo)\n")], 'COPY-STORE'),
+    silent('r6-twin-deepcopy-memo-ignored', ['C11'], [(BA, "        del memo  # unused\n", "        _ = memo\n")]),
+]
+
+GRM = 'autobean_refactor/beancount.lark'
+VARIANTS += [
+    fire('r6-grammar-account-digit', ['C12', 'C15'], [(GRM, "_ACCOUNT_NAME: (/[A-Z0-9]/ | _NON_ASCII)", "_ACCOUNT_NAME: (/[A-Z]/ | _NON_ASCII)")], 'TERM-DOMAIN'),
+    fire('r6-grammar-link-underscore', ['C12'], [(GRM, "LINK: /\\^[A-Za-z0-9-_\\/.]+/", "LINK: /\\^[A-Za-z0-9\\-\\/.]+/")], 'TERM-DOMAIN'),
+    fire('r6-grammar-currency-range', ['C12', 'C09'], [(GRM, "_CURRENCY_BODY: /[A-Z0-9'._-]*/", "_CURRENCY_BODY: /[A-Z0-9'.-_]*/")], 'TERM-DOMAIN'),
+    silent('r6-twin-grammar-escaped-dash', ['C12', 'C15'], [(GRM, "TAG: /#[A-Za-z0-9-_\\/.]+/", "TAG: /#[A-Za-z0-9\\-_\\/.]+/"), (GRM, "META_KEY: /[a-z][a-zA-Z0-9-_]+:/", "META_KEY: /[a-z][a-zA-Z0-9\\-_]+:/")]),
+    silent('r6-twin-grammar-account-one-helper', ['C12', 'C15'], [(GRM, "_ACCOUNT_TYPE: (/[A-Z]/ | _NON_ASCII) (/[A-Za-z0-9\\-]/ | _NON_ASCII)*\n_ACCOUNT_NAME: (/[A-Z0-9]/ | _NON_ASCII) (/[A-Za-z0-9\\-]/ | _NON_ASCII)*\nACCOUNT: _ACCOUNT_TYPE (\":\" _ACCOUNT_NAME)+",
+                                                                   "_ACCOUNT_REST: (/[A-Za-z0-9\\-]/ | _NON_ASCII)*\nACCOUNT: (/[A-Z]/ | _NON_ASCII) _ACCOUNT_REST (\":\" (/[A-Z0-9]/ | _NON_ASCII) _ACCOUNT_REST)+")]),
+    fire('r6-grammar-flag-priority', ['C15', 'C12'], [(GRM, "POSTING_FLAG: /[*!&#?%PSTCURM]/", "POSTING_FLAG.10: /[*!&#?%PSTCURM]/")], 'LEX-PRIO'),
+    fire('fix-revert-bool-whole-word', ['C15'], [(GRM, "BOOL.10: /(?:TRUE|FALSE)(?![A-Za-z0-9'._:\\-]|[^\\x00-\\x7f])/", 'BOOL.10: "TRUE" | "FALSE"')], 'LEX-PRIO'),
+    fire('r6-grammar-bool-word-boundary', ['C15'], [(GRM, "BOOL.10: /(?:TRUE|FALSE)(?![A-Za-z0-9'._:\\-]|[^\\x00-\\x7f])/", 'BOOL.10: /(?:TRUE|FALSE)\\b/')], None),
+    silent('r6-twin-grammar-null-lookahead-class', ['C15', 'C12'], [(GRM, "NULL.10: /NULL(?![A-Za-z0-9'._:\\-]|[^\\x00-\\x7f])/", "NULL.10: /NULL(?![^\\x00-\\x7f]|[0-9A-Za-z:._'\\-])/")]),
+]
